@@ -605,6 +605,7 @@ func c14(ctx *core.Ctx) {
 			// the OPTIONS filter computes its Allow header with the regular-expression engine of RouterJSR311,
 			// whatever router the container uses: same restriction as for that router
 			o.NoWild = true
+			o.NoCurlyOnly = true
 		}
 		if m := ti % 40; m == 14 || m == 15 {
 			// table shapes beyond what the small tables reach (long templates, 33-40 services, long media lists, many conditions, 130 routes)
